@@ -89,8 +89,12 @@ def oracle(case, rec):
         return edges.copy()
     try:
         one = np.asarray(emd.spectra.hilberthuang_1d(f0, a0, E(), mode=mode))
-        dense = np.asarray(emd.spectra.hilberthuang(f0, a0, E(), mode=mode, return_sparse=False))
-        sp = emd.spectra.hilberthuang(f0, a0, E(), mode=mode, return_sparse=True)
+        # "sparse requested" / "dense requested" in any truthy / falsy spelling (the literal, a numpy boolean, 0 / 1)
+        kflag = f.size % 3
+        dense = np.asarray(emd.spectra.hilberthuang(f0, a0, E(), mode=mode, return_sparse=[False, np.False_, 0][kflag]))
+        sp = emd.spectra.hilberthuang(f0, a0, E(), mode=mode, return_sparse=[True, np.True_, 1][kflag])
+        if not hasattr(sp, 'toarray') or hasattr(dense, 'toarray') and not isinstance(dense, np.ndarray):
+            raise Violation('C10/return_sparse-flag-not-honoured', 'flag spelling %d' % kflag)
     except Exception as e:
         raise Violation('C10/raises/' + type(e).__name__, repr(e))
     spd_before = np.asarray(sp.toarray()).copy()
